@@ -140,6 +140,8 @@ class EditWorld(object):
         self.tree = Tree(self.grid_size)
         self.model = Model()
         self.twin = None  # un-restored original that keeps receiving the same operations
+        self.images = []
+        self.last_image = None
         self.problems = []  # (key, detail, op index)
         self.stats = {"ops": 0, "skipped": 0, "persist": {}, "probes": {}, "states": set(), "checks": 0, "max_rebuild_diff": 0.0,
                       "max_model_diff": 0.0}
@@ -237,6 +239,12 @@ class EditWorld(object):
                 self.probe("persist_outlier_only_tree")
             if "c15" in self.oracles:
                 self.compare_pair(orig, restored, "roundtrip_" + how)
+                if self.last_image is not None:
+                    # the stored image is durable state: it is restored a second time now (a sibling that receives no edits)
+                    # and again after every later operation - whatever happens to the first restored tree, the image must keep
+                    # yielding the tree that was stored
+                    sib = self.Tree.from_dict(self.last_image)
+                    self.images = (self.images + [(how, self.last_image, bridge.canon_tree(orig), monitors.node_arrays(orig), sib)])[-2:]
             if twin and self.twin is None:
                 self.twin = orig
                 self.probe("twin_started")
@@ -396,10 +404,13 @@ class EditWorld(object):
     def restore(self, t, how):
         from phyclone.smc.swarm import TreeHolder
 
+        self.last_image = None
         if how == "dict":
-            return self.Tree.from_dict(t.to_dict())
+            self.last_image = t.to_dict()
+            return self.Tree.from_dict(self.last_image)
         if how == "pickle":
-            return self.Tree.from_dict(pickle.loads(pickle.dumps(t.to_dict(), protocol=pickle.HIGHEST_PROTOCOL)))
+            self.last_image = pickle.loads(pickle.dumps(t.to_dict(), protocol=pickle.HIGHEST_PROTOCOL))
+            return self.Tree.from_dict(self.last_image)
         if how == "gzip":
             buf = io.BytesIO()
             with gzip.GzipFile(fileobj=buf, mode="wb") as fh:
@@ -407,7 +418,8 @@ class EditWorld(object):
             buf.seek(0)
             with gzip.GzipFile(fileobj=buf, mode="rb") as fh:
                 d = pickle.load(fh)
-            return self.Tree.from_dict(d[0]["trace"][0]["tree"])
+            self.last_image = d[0]["trace"][0]["tree"]
+            return self.Tree.from_dict(self.last_image)
         if how == "copy":
             return t.copy()
         if how == "holder":
@@ -667,6 +679,29 @@ class EditWorld(object):
                     i, op, type(e).__name__, str(e)[:200]))
             if self.problems:
                 return
+            if self.images and op[0] != "persist":
+                self.check_images(i, op)
+                if self.problems:
+                    return
+
+    def check_images(self, i, op):
+        for how, img, cn, arrs, sib in self.images:
+            self.probe("stored_image_restored_again_after_later_edit")
+            for what, get in (("stored_image_restored_again", lambda: self.Tree.from_dict(img)), ("sibling_restored_earlier", lambda: sib)):
+                try:
+                    t2 = get()
+                    ok = bridge.canon_tree(t2) == cn and not monitors.wellformed(t2)
+                    if ok:
+                        now = monitors.node_arrays(t2)
+                        ok = set(now) == set(arrs) and all(
+                            (arrs[k][j] is None and now[k][j] is None) or (arrs[k][j] is not None and now[k][j] is not None and self.vec_close(arrs[k][j], now[k][j]))
+                            for k in arrs for j in (0, 1))
+                except Exception as e:
+                    ok = False
+                if not ok:
+                    self.problem({"sub": "image_not_durable", "what": what, "how": how},
+                                 "after op %d %r (applied to a tree restored from a %s image) %s does not give the tree that was stored" % (i, op, how, what.replace("_", " ")))
+                    return
 
 
 def run_history(cfg, ops, oracles):
